@@ -11,6 +11,9 @@
 //!           push/pop/re-enter/event operations (and twin + panicking event + follow-up
 //!           triples) on a fresh thread; call-log automaton + per-format content reading.
 //!   conc  — the same histories on 1..8 threads at once into ONE subscriber and ONE sink.
+//!   shared — 2..4 threads, released together, `Span::record` different (sometimes the same)
+//!           declared-but-Empty fields on ONE shared span; at quiescence every later record
+//!           that lists the span must carry every recorded field with its value.
 //!   route — writer expressions over the REAL combinators vs. their denotation.
 
 use std::cell::Cell;
@@ -43,6 +46,7 @@ include!("../c13/rec.rs");
 include!("../c13/model.rs");
 include!("../c13/oracle.rs");
 include!("../c13/route.rs");
+include!("../c13/shared.rs");
 
 fn main() {
     let args = run::parse_args();
@@ -63,12 +67,14 @@ struct Sizes {
     conc_runs: u64,
     conc_nops: usize,
     route_sample: u64,
+    shared_sessions: u64,
+    shared_rounds: u64,
     route_depth3_complete: bool,
 }
 fn sizes(t: Tier) -> Sizes {
     match t {
-        Tier::Quick => Sizes { fmt_reps: 4, fmt_nops: 24, conc_runs: 640, conc_nops: 300, route_sample: 2_000, route_depth3_complete: false },
-        Tier::Thorough => Sizes { fmt_reps: 24, fmt_nops: 60, conc_runs: 1_200, conc_nops: 5_000, route_sample: 50_000, route_depth3_complete: true },
+        Tier::Quick => Sizes { fmt_reps: 4, fmt_nops: 24, conc_runs: 640, conc_nops: 300, route_sample: 2_000, route_depth3_complete: false, shared_sessions: 320, shared_rounds: 300 },
+        Tier::Thorough => Sizes { fmt_reps: 24, fmt_nops: 60, conc_runs: 1_200, conc_nops: 5_000, route_sample: 50_000, route_depth3_complete: true, shared_sessions: 1_280, shared_rounds: 1_000 },
     }
 }
 
@@ -111,12 +117,14 @@ fn parent(args: &Args) {
             rule: "evaluations = recorded write buffers judged (call-log automaton + per-format content) + routing cells (expression, level, target) judged; \
                    non-trivial = a judged record / a routing cell of an expression with at least one combinator; \
                    distinct = distinct (formatter, option bits, timer, span-event set, json options, record kind event/new/enter/exit/close, scope depth, level, field-type signature, explicit-parent?) tuples \
-                   plus distinct routing cells",
+                   plus distinct routing cells; shared-span rounds (2-4 threads record on one span at once, records judged at quiescence) are counted in shared_span_* counters, \
+                   rounds whose record calls overlapped by logical stamps in shared_span_rounds_with_overlapping_record_calls",
             assumptions: vec![
                 "span scopes are produced by well-nested push/pop histories plus events with an explicit parent taken from the entered stack; explicit `parent: None` events are not generated".into(),
                 "thread ids/names, file, line, target and timestamp text are located at most, never compared (the property does not speak about them)".into(),
                 "json `spans` of records whose scope comes from an explicit parent or a lifecycle point may list either that scope or the currently entered spans (documented as the latter)".into(),
                 "field values contain no raw newline, no ESC, no '#'; field names avoid `message`, `log.*`, `r#*` and the JSON formatter's reserved keys".into(),
+                "shared-span rounds: the order in which concurrently recorded fields appear is free (every permutation is tried); a field recorded twice may show both values or either one".into(),
                 "routing: a sink outside the denotation must receive no write; being asked for a writer without a write is only counted".into(),
             ],
             min_evals: args.tier.pick(800_000, 30_000_000),
@@ -149,6 +157,9 @@ fn child(args: &Args) {
     }
     if part == "all" || part == "conc" {
         child_conc(args, &sz, only, &mut out);
+    }
+    if part == "all" || part == "shared" {
+        child_shared(args, &sz, only, &mut out);
     }
     if part == "all" || part == "route" {
         child_route(args, &sz, &mut out);
@@ -242,6 +253,25 @@ fn child_conc(args: &Args, sz: &Sizes, only: Option<u64>, out: &mut Out) {
             let p = HistParams { nops: sz.conc_nops, bomb_pct: if rng.chance(1, 4) { 5 } else { 0 }, max_depth: 4 };
             scenario(args.seed, "conc", 0xC0C, idx, &cfg, nthreads, &p, out);
             if out.viols.len() >= 5 {
+                return;
+            }
+        }
+        idx += args.nshards;
+    }
+}
+
+/// several threads record on one shared span at the same moment (part E)
+fn child_shared(args: &Args, sz: &Sizes, only: Option<u64>, out: &mut Out) {
+    let mut idx = args.shard;
+    while idx < sz.shared_sessions {
+        if only.is_none() || only == Some(idx) {
+            let mut rng = Rng::derive(args.seed ^ 0x5A4E, idx, 998);
+            let cfg = decode_cfg(rng.below(NCONFIGS), rng.below(8) as u8);
+            let k = 2 + (idx % 3) as usize;
+            let before = out.viols.len();
+            shared_record_session(args.seed, idx, &cfg, k, sz.shared_rounds, out);
+            out.count("shared_span_sessions", 1);
+            if out.viols.len() > before && out.viols.len() >= 3 {
                 return;
             }
         }
